@@ -485,6 +485,32 @@ def r31(ctx: Ctx) -> RuleReport:
             continue
         states = may_unproven(cfg, {(f'{var} in {vp}', False), (vp, False), (f'{var} not in {vp}', True)}, {var}, endless_loops(ctx, fi, cfg))
         bad = 'U' in states.get(r.id, {'U'})
+        if bad:
+            # the name may be produced by a search expression instead of a test-and-loop: next(<candidates filtered by membership in the avoid-set>)
+            vdefs = [v_ for v_ in ctx.cg.local_assigns(fi).get(var, []) if isinstance(v_, ast.AST)]
+            searches = [v_ for v_ in vdefs if isinstance(v_, ast.Call) and norm(v_.func) == 'next' and v_.args]
+            proved = []
+            for sx in searches:
+                a0 = sx.args[0]
+                if isinstance(a0, ast.GeneratorExp) and len(a0.generators) == 1 and isinstance(a0.generators[0].target, ast.Name) \
+                        and norm(a0.elt) == a0.generators[0].target.id \
+                        and any(norm(c).replace(' ', '') == f'{a0.generators[0].target.id}notin{vp}' for c in a0.generators[0].ifs):
+                    proved.append(sx)
+                elif isinstance(a0, ast.Call) and norm(a0.func) in ('filterfalse', 'itertools.filterfalse') and a0.args:
+                    pn_ = a0.args[0]
+                    if isinstance(pn_, ast.Name):
+                        pv_ = [x_ for x_ in ctx.cg.local_assigns(fi).get(pn_.id, []) if isinstance(x_, ast.AST)]
+                        if len(pv_) == 1:
+                            pn_ = pv_[0]
+                    pred = norm(pn_).replace(' ', '')
+                    if pred in (f'partial(operator.contains,{vp})', f'functools.partial(operator.contains,{vp})', f'partial(contains,{vp})', f'{vp}.__contains__'):
+                        proved.append(sx)
+            if searches and len(proved) == len(searches):
+                rep.ok(key, fi.loc(r.ast), f'{var} is the first candidate that is not in {vp} ({norm(proved[0])[:60]})')
+                continue
+            if searches or any(isinstance(v_, ast.Call) and not (isinstance(v_.func, ast.Attribute) and v_.func.attr == 'format') for v_ in vdefs):
+                rep.undecided(key, fi.loc(r.ast), f'{var} is produced by {[norm(v_)[:50] for v_ in vdefs]}: not a form this rule reads')
+                continue
         rep.add(key, fi.loc(r.ast), 'violation' if bad else 'ok',
                 f'{var} can be returned without having been tested against {vp}' if bad else '')
     return rep
@@ -739,6 +765,19 @@ def r30(ctx: Ctx) -> RuleReport:
                     part_ok = isinstance(c, ast.Call) and norm(c.func).endswith('.canonicalize_role') and len(c.args) == 1 \
                         and norm(c.args[0]) == unp[0] and norm(parts[1]) == unp[1] and norm(parts[2]) == unp[2]
                 rx_verdict = None
+                if not part_ok and unp:
+                    # the alignment text reaches the output role through a call (parsed and written again)?
+                    reparse = None
+                    for n in ast.walk(loop):
+                        if isinstance(n, (ast.AugAssign, ast.Assign)) and any(isinstance(x, ast.Name) and x.id == (o_role.id if isinstance(o_role, ast.Name) else '') for x in ast.walk(n.target if isinstance(n, ast.AugAssign) else n.targets[0])):
+                            for c_ in ast.walk(n.value):
+                                if isinstance(c_, ast.Call) and not norm(c_.func).endswith('.canonicalize_role') and any(isinstance(y, ast.Name) and y.id == unp[2] for y in ast.walk(c_)):
+                                    reparse = c_
+                    if reparse is not None:
+                        rep.violation(f'{fi.fq}: output role = canonicalize_role(role without alignment) + the same alignment suffix', fi.loc(reparse),
+                                      f'the alignment suffix is not passed through as text: it goes through `{norm(reparse)[:60]}`. Parsing and re-writing a marker normalises it '
+                                      f'(":ARG0~e.01" becomes ":ARG0~e.1") and raises for a suffix the surface syntax does not know - canonicalising roles must change role names only')
+                        continue
                 if not part_ok:
                     rx_verdict = _r30_regex_split(ctx, fi, loop, parts)
                 if rx_verdict is not None:
@@ -1341,6 +1380,20 @@ def r92(ctx: Ctx) -> RuleReport:
     cfg = CFG(fi.node)
     pm = ctx.repo.parent_map(fi.node)
     loops = [n for n in walk_local(fi.node) if isinstance(n, ast.For) and norm(n.iter).endswith('.triples')]
+    if not loops:
+        # the loop pairs the triples with the answers of a diagnostic: node_contexts() says None from the first mismatch of the markers on
+        for n in walk_local(fi.node):
+            if isinstance(n, ast.For) and isinstance(n.iter, ast.Call) and norm(n.iter.func) == 'zip' and isinstance(n.target, ast.Tuple):
+                for a_, t_ in zip(n.iter.args, n.target.elts):
+                    if isinstance(a_, ast.Call) and norm(a_.func).endswith('node_contexts') and isinstance(t_, ast.Name):
+                        used = [x for x in ast.walk(n) if isinstance(x, ast.Tuple) and len(x.elts) == 3 and norm(x.elts[1]).endswith('.top_role')
+                                and any(isinstance(y, ast.Name) and y.id == t_.id for y in ast.walk(x))]
+                        if used:
+                            rep.violation(f'{fi.fq}: the TOP triple names the enclosing node and the nested node', fi.loc(used[0]),
+                                          f'`{norm(used[0])}` takes a node from node_contexts(): that diagnostic answers None for every triple after the first place where the '
+                                          f'Push/POP markers do not nest perfectly (after reify_edges or dereify_edges, or on a hand-built graph), so the inserted triple is '
+                                          f'(None, :TOP, x) - a source that is no variable, and the result does not encode or decode to itself')
+                            return rep
     if len(loops) != 1 or not isinstance(loops[0].target, ast.Name):
         rep.undecided(f'{fi.fq}: one loop `for t in g.triples`', fi.loc(), f'{len(loops)} loops')
         return rep
